@@ -362,6 +362,20 @@ let parse_audit (obs : string) =
            d_lsz = (let l = get "lsz" in if l = "" then []
                     else List.map (fun s -> z_of_int (int_of_string s)) (Stdlib.String.split_on_char ',' l)) }
 
+(* ---- C06: node-level store machine (RefStore.sstep / observe) ---- *)
+let rstore = ref st_init
+let rnames : (string, int) Hashtbl.t = Hashtbl.create 31
+let rname_next = ref 0
+let rname x = try Hashtbl.find rnames x with Not_found -> raise Unsupported
+let rname_fresh x = incr rname_next; Hashtbl.replace rnames x !rname_next; !rname_next
+let robs () =
+  let (cnts, live) = observe !rstore in
+  let byid = List.map (fun (nm, c) -> (int_of_nat nm, int_of_nat c)) cnts in
+  let names = List.sort compare (Hashtbl.fold (fun k v acc -> (k, v) :: acc) rnames []) in
+  emit (Printf.sprintf "nobs live=%d%s" (int_of_nat live)
+          (Stdlib.String.concat "" (List.map (fun (k, v) ->
+               Printf.sprintf " %s=%d" k (try List.assoc v byid with Not_found -> -1)) names)))
+
 (* ---- C16: documented precondition checks of apply (domain, set/relation) ---- *)
 let forest_of_edge name = Hashtbl.find_opt edge_forest_name name
 
@@ -415,7 +429,7 @@ let rec run toks =
     Hashtbl.replace dom_ids d !next_dom;
     lstep_do (LCreateDomain (nat_of_int !next_dom))
   | "auditmode" :: m :: _ -> lenient_counts := (m = "lenient")
-  | "init" :: _ -> lstep_do LInitialize
+  | "init" :: _ -> lstep_do LInitialize; rstore := st_init; Hashtbl.reset rnames
   | "cleanup" :: "keep" :: _ ->
     (* the user's edges outlive the library: all of them are detached, the
        forests and domains are gone, the registry restarts at the next init *)
@@ -771,6 +785,24 @@ let rec run toks =
       | _ -> raise Unsupported in
     let t = apply1 (szf fr) g fa.rule fr.rule l O ta in
     set_edge r fn t; show r
+  | "nnew" :: x :: fn :: lvl :: cs ->
+    ignore (get_forest fn);
+    let resolve c =
+      if c.[0] = 't' then z_of_int (- (int_of_string (Stdlib.String.sub c 1 (Stdlib.String.length c - 1))))
+      else match lookup_name !rstore.st_names (nat_of_int (rname c)) with
+        | Some id -> id
+        | None -> raise Unsupported in
+    let ids = List.map resolve cs in
+    rstore := sstep !rstore (SNew (nat_of_int (rname_fresh x), nat_of_int (int_of_string lvl), ids));
+    robs ()
+  | "ndup" :: y :: x :: _ ->
+    let nx = rname x in
+    rstore := sstep !rstore (SDup (nat_of_int (rname_fresh y), nat_of_int nx));
+    robs ()
+  | "ndrop" :: x :: _ ->
+    rstore := sstep !rstore (SDrop (nat_of_int (rname x)));
+    Hashtbl.remove rnames x;
+    robs ()
   | "edgeval" :: fn :: kind :: rest ->
     let f = get_forest fn in
     (match f.lab, kind, rest with
